@@ -147,6 +147,10 @@ pub struct ClientModel {
     /// depends on which of the two the task handles first. No property decides that order (the
     /// task's `select!` is unbiased), so the model cannot predict the outcome: the run ends here.
     pub order_dependent: Option<&'static str>,
+    /// (serial) how many times the implementation has closed the port so far: lets the model follow the
+    /// implementation where the properties leave a choice (a frame with a bad CRC: end the session or skip it)
+    pub impl_port_closes: Option<fn() -> usize>,
+    pub bad_crc_frames_skipped: u64,
 }
 
 impl ClientModel {
@@ -176,6 +180,8 @@ impl ClientModel {
             effects: Vec::new(),
             connected_once: false,
             order_dependent: None,
+            impl_port_closes: None,
+            bad_crc_frames_skipped: 0,
         };
         m.emit(MState::Disabled);
         m
@@ -366,6 +372,23 @@ impl ClientModel {
                     self.rtu_buf.drain(..total);
                     let _ = used;
                     self.on_frame(None, &pdu);
+                }
+                RtuItem::BadCrc { total } => {
+                    let model_closes = self.effects.iter().filter(|e| matches!(e, Effect::ConnClosed(_))).count();
+                    let kept = match self.impl_port_closes {
+                        Some(f) => f() <= model_closes,
+                        None => false,
+                    };
+                    if kept {
+                        // the implementation dropped the frame and stays on the port: so does the model
+                        let total = *total;
+                        self.rtu_buf.drain(..total);
+                        self.bad_crc_frames_skipped += 1;
+                        continue;
+                    }
+                    self.rtu_buf.clear();
+                    self.on_framing_error();
+                    return;
                 }
                 RtuItem::Error => {
                     // what the parser consumed before failing is not modelled: the
